@@ -460,7 +460,11 @@ class RaftNode(Entity):
             existing = self._log.get(idx)
 
             if existing and existing.term != entry_term:
-                self._log.truncate_from(idx)
+                removed = self._log.truncate_from(idx)
+                # The entries these futures were registered for are gone; whatever
+                # commits at those indices later is another command
+                for stale in range(idx, idx + removed):
+                    self._pending_futures.pop(stale, None)
                 self._log.append(entry_term, entry_dict["command"])
             elif not existing:
                 self._log.append(entry_term, entry_dict["command"])
